@@ -1,4 +1,5 @@
 import Idn.DevsSum
+import Idn.CouplesIdentity
 
 /-! # C18 — property theorems (statements only; proofs live in the family libraries) -/
 
@@ -13,6 +14,91 @@ theorem mergeDevs_conserves :
     ∀ (f : DT → Int) (hf : Additive f) (rd1 rd2 : List IdnM.Ident) (b1 b2 ts : Nat) (t1 t2 : Ticks),
     sumF f (mergeDevs rd1 rd2 b1 b2 ts t1 t2).1 = sumF f t1 + sumF f t2 :=
   @DevsM.mergeDevs_conserves
+end
+
+section
+open CmM IdnM
+
+/-- couples, file matrix: every merged cell is the sum of the input cells re-indexed onto it by file name -/
+theorem merge_fm_cell :
+    ∀ (r1 r2 : Res) (K : Nat × Nat),
+    val (merge r1 r2).fm K = landing r1.fm (fmap1 r1 r2) K + landing r2.fm (fmap2 r1 r2) K :=
+  @CmM.merge_fm_cell
+
+/-- couples, developer matrix: the same with merged developer indexes (unmatched author = extra last row/column) -/
+theorem merge_pm_cell :
+    ∀ (r1 r2 : Res) (K : Nat × Nat),
+    val (merge r1 r2).pm K = landing r1.pm (pmap1 r1 r2) K + landing r2.pm (pmap2 r1 r2) K :=
+  @CmM.merge_pm_cell
+
+/-- totals of both coupling matrices are conserved -/
+theorem merge_totals :
+    ∀ (r1 r2 : Res),
+    total (merge r1 r2).fm = total r1.fm + total r2.fm ∧ total (merge r1 r2).pm = total r1.pm + total r2.pm :=
+  @CmM.merge_totals
+
+/-- re-indexing by file name is faithful: the merged list holds exactly the names of both inputs, without duplicates,
+and the merged index of every input file carries that file's name -/
+theorem merge_files_spec :
+    ∀ (r1 r2 : Res),
+    (∀ s, s ∈ (merge r1 r2).files ↔ s ∈ r1.files ∨ s ∈ r2.files) ∧
+    (r1.files.Nodup → r2.files.Nodup → (merge r1 r2).files.Nodup) ∧
+    (∀ i s, r1.files[i]? = some s → (merge r1 r2).files[fmap1 r1 r2 i]? = some s) ∧
+    (∀ i s, r2.files[i]? = some s → (merge r1 r2).files[fmap2 r1 r2 i]? = some s) :=
+  @CmM.merge_files_spec
+
+/-- line counts add up per file name -/
+theorem merge_lines_spec :
+    ∀ (r1 r2 : Res) (I : Nat) (name : String) (h : (merge r1 r2).files[I]? = some name),
+    (merge r1 r2).lines[I]? = some (
+      (if name ∈ r1.files then r1.lines.getD (r1.files.idxOf name) 0 else 0) +
+      (if name ∈ r2.files then r2.lines.getD (r2.files.idxOf name) 0 else 0)) :=
+  @CmM.merge_lines_spec
+
+theorem merge_lines_at :
+    ∀ (r1 r2 : Res) (h1 : r1.files.Nodup) (i : Nat) (s : String) (hi : r1.files[i]? = some s),
+    (merge r1 r2).lines[fmap1 r1 r2 i]? = some (r1.lines.getD i 0 +
+      (if s ∈ r2.files then r2.lines.getD (r2.files.idxOf s) 0 else 0)) :=
+  @CmM.merge_lines_at
+
+/-- touched files of a merged developer: strictly increasing, exactly the union of the re-indexed lists of the input
+developers mapped to it -/
+theorem merge_pf_spec :
+    ∀ (r1 r2 : Res) (I : Nat) (hI : I < (merge r1 r2).people.length),
+    ∃ row, (merge r1 r2).pf[I]? = some row ∧ row.Pairwise (· < ·) ∧
+      ∀ F, F ∈ row ↔ Contrib r1.pf r1.people.length (pmap1 r1 r2) (fmap1 r1 r2) I F ∨
+                     Contrib r2.pf r2.people.length (pmap2 r1 r2) (fmap2 r1 r2) I F :=
+  @CmM.merge_pf_spec
+
+/-- the developer re-indexing follows the merged identity: two developers are added into one merged row exactly when
+their identities are connected by shared names or e-mails (premises as in C16, decidable by `premisesCheck`) -/
+theorem pmap_same_iff :
+    ∀ (r1 r2 : Res) (h1 : Disj r1.people) (h2 : Disj r2.people)
+    (hne : ∀ a ∈ r1.people ++ r2.people, a ≠ [])
+    (hj : ∀ a ∈ r1.people ++ r2.people, ∀ b ∈ r1.people ++ r2.people, join a = join b → a = b)
+    (i j : Nat) (a b : Ident) (ha : r1.people[i]? = some a) (hb : r2.people[j]? = some b),
+    pmap1 r1 r2 i = pmap2 r1 r2 j ↔ ∀ p ∈ a, ∀ q ∈ b, Conn r1.people r2.people p q :=
+  @CmM.pmap_same_iff
+
+theorem pmap1_walk :
+    ∀ (r1 r2 : Res) (h1 : Disj r1.people) (h2 : Disj r2.people)
+    (hne : ∀ a ∈ r1.people ++ r2.people, a ≠ [])
+    (hj : ∀ a ∈ r1.people ++ r2.people, ∀ b ∈ r1.people ++ r2.people, join a = join b → a = b)
+    (i : Nat) (a : Ident) (ha : r1.people[i]? = some a),
+    ∃ w, (walks r1.people r2.people)[pmap1 r1 r2 i]? = some w ∧ ∀ p ∈ a, p ∈ w :=
+  @CmM.pmap1_walk
+
+/-- the common summary: earliest begin, latest end, sum of the commit counts; refused only when uninitialised -/
+theorem car_merge_spec :
+    ∀ (a b c : Car) (h : a.merge b = some c),
+    c.begin ≤ a.begin ∧ c.begin ≤ b.begin ∧ (c.begin = a.begin ∨ c.begin = b.begin) ∧
+    a.finish ≤ c.finish ∧ b.finish ≤ c.finish ∧ (c.finish = a.finish ∨ c.finish = b.finish) ∧
+    c.commits = a.commits + b.commits :=
+  @CmM.car_merge_spec
+
+theorem car_merge_none :
+    ∀ (a b : Car), a.merge b = none ↔ a.finish = 0 ∨ b.begin = 0 :=
+  @CmM.car_merge_none
 end
 
 end Props.C18
